@@ -143,6 +143,8 @@ def classify_axis(fi, call: ast.Call, du: DefUse) -> tuple[str, str]:
             if other is call:
                 continue
             kw = {k.arg: norm(k.value) for k in other.keywords}
+            if "out" not in kw and len(other.args) >= 2:
+                kw["out"] = norm(other.args[1])    # (arr, out) positionally
             if kw.get("out") == name:
                 prov, kind = classify_axis(fi, other, du)
                 if kind == "ORDERED" and "permutation image" in prov:
